@@ -161,7 +161,7 @@ inductive TrErr | encoding | assertion | index
 
 /-- `Translate().windowed(rows)`: encode (EncodingError), assert all lengths % 3 == 0, ravel,
 reshape, translate, re-wrap with `lengths // 3` -/
-def translate (tab : List Nat) (rows : List Bytes) : Except TrErr (List Bytes) :=
+def translateRows (tab : List Nat) (rows : List Bytes) : Except TrErr (List Bytes) :=
   match omap encTCAG rows.flatten with
   | none => .error .encoding
   | some codes =>
